@@ -1,7 +1,11 @@
 pub mod cli;
 pub mod gen;
+pub mod gprog;
 pub mod jq;
+pub mod manual;
 pub mod mval;
+pub mod refi;
+pub mod refrun;
 pub mod runner;
 pub mod src;
 
